@@ -18,5 +18,14 @@ type EventProcessor interface {
 	RollbackEvents(ctx context.Context, tx pgx.Tx, toBlock int64) error
 }
 
+// RangeLimiter is implemented by processors whose stored events change what other processors fetch
+// (a trigger registration makes the trigger processor watch for matching logs in later blocks). A
+// sync range has to end with the first block in which such a processor has events, so that the
+// result does not depend on how many blocks are processed per range.
+type RangeLimiter interface {
+	// FirstEventBlock returns the lowest block number among the given events, if there are any.
+	FirstEventBlock(events []Event) (uint64, bool)
+}
+
 // Event represents a generic blockchain event that can be processed.
 type Event interface{}
